@@ -15,6 +15,8 @@ pub enum Op {
     Drop(usize),
     /// `n` consecutive frames from one output (a long lead over the others); the invariants are checked after the burst
     Burst(usize, u32),
+    /// `n` outputs are attached and dropped again at once (none of them reads a frame); the outputs that stay live must not notice
+    Churn(u32),
 }
 
 #[derive(Clone, Debug, Serialize, Deserialize)]
@@ -43,6 +45,7 @@ pub fn check(c: &Case, st: &mut Stats) -> CheckResult {
     let mut dropped_unique_slowest = false;
     let mut reattached = false;
     let mut ever_had_output = false;
+    let mut attached_total: u64 = 0;
     for (k, op) in c.ops.iter().enumerate() {
         if c.drop_bus_at == Some(k) {
             bus_dropped_with_lag = live.iter().any(|(_, pos)| *pos < p);
@@ -63,6 +66,7 @@ pub fn check(c: &Case, st: &mut Stats) -> CheckResult {
                 let o = bus.send();
                 live.push((o, p));
                 ever_had_output = true;
+                attached_total += 1;
             }
             Op::Next(_) | Op::Burst(..) => {
                 let (i, n) = match op {
@@ -89,6 +93,21 @@ pub fn check(c: &Case, st: &mut Stats) -> CheckResult {
                 }
                 if n > 1 && live.iter().any(|(_, q)| p - *q > 65_536) {
                     st.class_if(true, "an output lags more than 65536 frames");
+                }
+            }
+            Op::Churn(n) => {
+                let bus = match &bus {
+                    Some(b) => b,
+                    None => continue,
+                };
+                for _ in 0..*n {
+                    let o = bus.send();
+                    ensure!(o.pending_frames() == 0, "op #{} {:?}: a freshly attached output reports {} pending frames", k, op, o.pending_frames());
+                    drop(o);
+                }
+                attached_total += *n as u64;
+                if attached_total > 65_536 && live.iter().any(|(_, pos)| *pos < p) {
+                    st.class_if(true, "more than 65536 outputs attached to one bus while an early output still lags");
                 }
             }
             Op::Drop(i) => {
@@ -256,4 +275,24 @@ pub fn run(ctx: &mut Ctx) {
         }
     }
     ctx.enumerate("long-lags", false, cases.into_iter(), check);
+    // many attachments over the life of one bus ("for any interleaving of attaching outputs"): two early outputs, one of them lagging,
+    // stay live while n further outputs come and go - n around 2^8 and 2^16, where a narrowed output key would wrap onto a live one -
+    // then one more output is attached and kept, and every output is drained
+    ctx.require_class("more than 65536 outputs attached to one bus while an early output still lags");
+    let mut cases = Vec::new();
+    for n in [253u32, 254, 255, 256, 65_533, 65_534, 65_535, 65_536, 65_537, 70_000, 131_075] {
+        for src_len in [None, Some(4u64)] {
+            for split in [false, true] {
+                let mut ops = vec![Op::Send, Op::Send, Op::Burst(0, 3)];
+                if split {
+                    ops.extend([Op::Churn(n / 2), Op::Next(1), Op::Churn(n - n / 2)]);
+                } else {
+                    ops.push(Op::Churn(n));
+                }
+                ops.extend([Op::Send, Op::Next(0), Op::Next(2), Op::Burst(1, 4), Op::Churn(3), Op::Next(2), Op::Drop(0), Op::Next(0), Op::Next(1), Op::Drop(1), Op::Next(0)]);
+                cases.push(Case { src_len, max_live: 3, ops, drop_bus_at: None, tail: 0 });
+            }
+        }
+    }
+    ctx.enumerate("many-attachments", false, cases.into_iter(), check);
 }
